@@ -15,7 +15,7 @@ from mc import core, gen, harness, traces
 from mc.core import Result, Violation
 from mc.props.c06 import ALPHA_FULL, ALPHA_SMALL, SAME_FAMILY_PROGS, cases_for, first_accepted_kind
 
-DETAILS = ["hash", "repr", "context", "all"]
+DETAILS = ["hash", "repr", "context", "all", "hash,repr", "hash,context", "repr,context"]
 VOLATILE_TOP = {"timestamp", "seq", "run_id"}
 
 
@@ -35,11 +35,11 @@ def normalise(records: List[dict]) -> List[dict]:
 
 
 def observe(real: harness.RealOutcome) -> dict:
-    from verif_lib.components import THE_ERROR
+    from verif_lib.components import EMPTY_ERROR, THE_ERROR
 
     return {"status": real.status, "data": real.data, "ctx": {k: (v if isinstance(v, (int, float, str, bool, type(None))) else repr(v)) for k, v in real.ctx.items()},
             "error": real.error, "index": real.index,
-            "is_original_error": (real.exc is THE_ERROR) if real.error == "ValueError" else None,
+            "is_original_error": (real.exc is THE_ERROR) if real.error == "ValueError" else (real.exc is EMPTY_ERROR) if real.error == "RuntimeError" else None,
             "message": str(real.exc) if real.exc is not None else None, "log": real.log, "files": sorted(real.files)}
 
 
@@ -55,14 +55,14 @@ def first_diff(a: Any, b: Any, path: str = "") -> str:
     if type(a) != type(b):
         return f"{path}: {a!r} vs {b!r}"
     if isinstance(a, dict):
-        for k in sorted(set(a) | set(b)):
+        for k in sorted(set(a) | set(b), key=repr):
             if k not in a or k not in b:
                 return f"{path}/{k}: present in only one"
             d = first_diff(a[k], b[k], f"{path}/{k}")
             if d:
                 return d
         return ""
-    if isinstance(a, list):
+    if isinstance(a, (list, tuple)):
         if len(a) != len(b):
             return f"{path}: lengths {len(a)} vs {len(b)}"
         for i, (x, y) in enumerate(zip(a, b)):
@@ -70,9 +70,13 @@ def first_diff(a: Any, b: Any, path: str = "") -> str:
             if d:
                 return d
         return ""
-    if a is b or a == b or (isinstance(a, float) and isinstance(b, float) and a != a and b != b):
+    if a is b or (isinstance(a, float) and isinstance(b, float) and a != a and b != b):
         return ""
-    return f"{path}: {a!r} vs {b!r}"
+    try:
+        same = bool(a == b)
+    except Exception:  # values whose == is element-wise or raises (numpy arrays, tripwire objects): compare what they show
+        same = repr(a) == repr(b)
+    return "" if same else f"{path}: {a!r} vs {b!r}"
 
 
 def exotic_values() -> Dict[str, Any]:
@@ -81,7 +85,17 @@ def exotic_values() -> Dict[str, Any]:
     import numpy as np
     from verif_lib.components import Trip
 
-    return {"arr": np.array([1.0, 2.0, 3.0]), "trip": Trip(), "nan": float("nan")}
+    return {"arr": np.array([1.0, 2.0, 3.0]), "trip": Trip(), "nan": float("nan"), "mixedkeys": {1: "a", "b": 2}}
+
+
+def exotic_param_values() -> Dict[str, Any]:
+    """Unusual-but-legal values put where a node READS them (a context-sourced parameter): whatever the processor then does
+    (most raise TypeError), the traced run must do the same.  Dicts with unorderable keys defeat sort_keys JSON dumps."""
+    import numpy as np
+    from verif_lib.components import Trip
+
+    return {"mixedkeys": {1: "a", "b": 2}, "nonekey": {None: 1, "a": 2}, "nested-mixed": [{"a": {1: 2, "c": 3}}], "tuplekey": {(1, 2): 3},
+            "arr": np.array([1.0, 2.0]), "trip": Trip(), "nan": float("nan"), "set": {1, 2}, "bytes": b"x", "complex": 1j, "bigint": 10 ** 400}
 
 
 def _worker_obs(chunk):
@@ -92,11 +106,17 @@ def _worker_obs(chunk):
         dk = first_accepted_kind(prog)
         ctxs = cases_for(prog)
         if len(prog) <= 2 or prog in SAME_FAMILY_PROGS:
-            ctxs = ctxs + [{**ctxs[-1], "__exotic__": True}]
+            full = ctxs[-1]
+            ctxs = ctxs + [{**full, "__exotic__": True}]
+            ctxs = ctxs + [{**full, "__exoticparam__": (k, name)} for k in sorted(full) for name in exotic_param_values()]
         for ctx in ctxs:
             if ctx.get("__exotic__"):
                 ctx = {k: v for k, v in ctx.items() if k != "__exotic__"}
                 ctx.update(exotic_values())
+            elif ctx.get("__exoticparam__"):
+                k, name = ctx["__exoticparam__"]
+                ctx = {kk: v for kk, v in ctx.items() if kk != "__exoticparam__"}
+                ctx[k] = exotic_param_values()[name]
             try:
                 base = untraced(prog, dk, ctx, scratch)
             except Exception:
@@ -241,7 +261,7 @@ FRESH_PAIRS = [
 def check(tier: str, seed: int) -> Result:
     if tier == "quick":
         progs = gen.programs(ALPHA_FULL, [1, 2]) + gen.programs(ALPHA_SMALL[:9], [3])
-        dets = lambda i: [DETAILS[i % 4], "all"]  # noqa: E731
+        dets = lambda i: [DETAILS[i % len(DETAILS)], "all"]  # noqa: E731
     else:
         progs = gen.programs(ALPHA_FULL, [1, 2, 3])
         dets = lambda i: DETAILS  # noqa: E731
